@@ -301,7 +301,10 @@ pub fn random_line_tokens(rng: &mut Rng) -> Vec<Vec<u8>> {
 }
 
 pub fn random_trailer(rng: &mut Rng) -> Vec<u8> {
-    match rng.below(14) {
+    match rng.below(17) {
+        14 => vec![4, 0, 1, 42],            // a well-formed TLV that would extend the TLV section
+        15 => vec![1, 0],                   // the start of one
+        16 => b"123".to_vec(),              // digits that would extend the last port
         10 => vec![0xff, 0xfe, 0x80],
         11 => vec![0x16, 0x03, 0x01, 0x02, 0x00, 0x01, 0x00, 0x01, 0xfc, 0x03, 0x03, 0xd1, 0x9a],
         12 => vec![0xe2, 0x82],
@@ -842,6 +845,29 @@ pub fn generate(name: &str, count: usize, rng: &mut Rng, sink: &mut dyn FnMut(Se
                 bytes[pos] = val;
                 let chunks = if rng.chance(1, 3) { split_each(&bytes[..bytes.len().min(20)]) } else { vec![bytes.clone()] };
                 sink(Session { sid: format!("v2sig-{}", i), tag: json!({"g": "v2sig"}), chunks });
+            }
+        }
+        // what the crate's own builder emits for random call sequences, as parser input
+        "bparse" => {
+            for i in 0..count {
+                let mut bytes = match crate::builder::random_built(rng) {
+                    Some(b) => b,
+                    None => continue,
+                };
+                if bytes.len() > 4000 {
+                    continue;
+                }
+                if rng.chance(1, 4) {
+                    bytes.extend(random_trailer(rng));
+                }
+                let chunks = if bytes.len() > 120 {
+                    let n = bytes.len();
+                    let cuts: Vec<usize> = (1..18).chain([n - 1, 231, 232, 233]).collect();
+                    split_at(&bytes, &cuts)
+                } else {
+                    chunking(&bytes, rng, 5)
+                };
+                sink(Session { sid: format!("bparse-{}", i), tag: json!({"g": "bparse"}), chunks });
             }
         }
         // both formats in one stream
